@@ -17,8 +17,8 @@ use serde::{Deserialize, Serialize};
 use serde_json::{Value, json};
 use square::*;
 
-const RULE: &str = "A: original squares of width k in {1,2,4} (quick) / {1,2,4,8,16,32} x 2 namespace layouts + k=64 uniform (thorough), app version V2 (and V7 for k<=2): from_ods must succeed, first quadrant == input, all cells == harness extension (Q4 from Q2 by columns), and for every row and every column every erasure pattern keeping exactly k of 2k shares — all C(2k,k) patterns for 2k<=8 (quick) / 2k<=16 (thorough), beyond that left/right halves, even/odd, every contiguous k-window, every 'k-1 from the left + one from the right half' — reconstructs to the full axis. \
-B: malformed inputs of from_ods (original-square level) and new (extended level), each must be Err: share counts that are not squares, squares of non-power-of-two width, empty input, width above the app version's bound, one share (every position, k<=4 / w<=4) or all shares of length 0/64/511/513, every adjacent pair of different namespaces swapped along a row / a column plus the two explicit 2x2 grids (row-only / column-only disorder), share version 1 below app V3 (every position; the same input must be accepted from V3 on). \
+const RULE: &str = "A: original squares of width k in {1,2,4,8,16} (quick) / {1,2,4,8,16,32} x 2 namespace layouts, + k=64 (thorough), app version V2 (and V7 for k<=2): from_ods must succeed, first quadrant == input, all cells == harness extension (Q4 from Q2 by columns), and for every row and every column every erasure pattern keeping exactly k of 2k shares — all C(2k,k) patterns for 2k<=8 (quick) / 2k<=16 (thorough), beyond that left/right halves, even/odd, every contiguous k-window, every 'k-1 from the left + one from the right half' — reconstructs to the full axis. \
+B: malformed inputs of from_ods (original-square level) and new (extended level), each must be Err: share counts that are not squares, squares of non-power-of-two width, empty input, width above the app version's bound, one share (every position; widths <=4 quick, <=8 thorough) or all shares of length 0/64/511/513, every adjacent pair of different namespaces swapped along a row / a column plus the two explicit 2x2 grids (row-only / column-only disorder), share version 1 below app V3 (every position; the same input must be accepted from V3 on). \
 distinct = (input description); non-trivial = A: reconstruction from a pattern that drops at least one original share, B: inputs whose shape passes the first size check";
 
 fn ver(v: u64) -> AppVersion {
@@ -101,6 +101,7 @@ fn eval_malformed(m: &Malformed, seed: u64, rep: &mut Report) {
         }
     });
     let kind = match &m.mutn {
+        Mutn::None if m.grid.is_some() => "grid",
         Mutn::None => "valid",
         Mutn::Count { .. } => "count",
         Mutn::ShareLen { .. } | Mutn::AllLen { .. } => "share-size",
@@ -164,7 +165,8 @@ fn malformed_cases(tier: Tier) -> Vec<Malformed> {
         out.push(mk("new", 0, 0, Mutn::Count { n: w * w }, 2, false));
     }
     // above the bound of the app version (original width 128 for V1..V5): next power of two
-    for app in [1u64, 2, 5] {
+    let big_apps: &[u64] = tier.pick(&[2][..], &[1, 2, 5][..]);
+    for &app in big_apps {
         out.push(mk("from_ods", 0, 0, Mutn::Count { n: 256 * 256 }, app, false));
     }
     if tier == Tier::Thorough {
@@ -179,7 +181,7 @@ fn malformed_cases(tier: Tier) -> Vec<Malformed> {
                 // the untouched base must be accepted (otherwise the Err below proves nothing)
                 out.push(mk(target, width, layout, Mutn::None, 2, true));
                 let n = width * width;
-                if width <= 4 {
+                if width <= tier.pick(4, 8) {
                     for pos in 0..n {
                         for len in [0usize, 64, 511, 513] {
                             out.push(mk(target, width, layout, Mutn::ShareLen { pos, len }, 2, false));
@@ -269,12 +271,9 @@ fn reconstructs(axis: &[Vec<u8>], mask: &[bool]) -> Result<(), String> {
     let k = axis.len() / 2;
     let mut kept: Vec<Vec<u8>> = axis.iter().zip(mask).map(|(s, m)| if *m { s.clone() } else { vec![] }).collect();
     leopard_codec::reconstruct(&mut kept, k).map_err(|e| format!("reconstruct failed: {e}"))?;
-    // reconstruct restores the original half; the parity half follows by re-encoding
-    let parity = rs_parity(&kept[..k]);
+    // reconstruct restores every missing share, original and parity
     for (j, want) in axis.iter().enumerate() {
-        let got = if j < k || mask[j] { &kept[j] } else { &parity[j - k] };
-        let got = if j >= k { &parity[j - k] } else { got };
-        if got != want {
+        if &kept[j] != want {
             return Err(format!("share {j} differs after reconstruction"));
         }
     }
@@ -393,7 +392,7 @@ fn eval_valid(spec: &ValidSpec, only: Option<&Value>, seed: u64, tier: Tier) -> 
 
 fn valid_specs(tier: Tier) -> Vec<ValidSpec> {
     let mut v = vec![];
-    let ks: &[usize] = tier.pick(&[1, 2, 4][..], &[1, 2, 4, 8, 16, 32][..]);
+    let ks: &[usize] = tier.pick(&[1, 2, 4, 8, 16][..], &[1, 2, 4, 8, 16, 32][..]);
     for &k in ks {
         for layout in 0..2 {
             v.push(ValidSpec { k, layout, app: 2 });
@@ -404,6 +403,7 @@ fn valid_specs(tier: Tier) -> Vec<ValidSpec> {
     }
     if tier == Tier::Thorough {
         v.push(ValidSpec { k: 64, layout: 0, app: 2 });
+        v.push(ValidSpec { k: 64, layout: 1, app: 2 });
     }
     v
 }
